@@ -213,7 +213,7 @@ func runC07(c C07Case) *Result {
 }
 
 func TestC07(t *testing.T) {
-	runSpec(t, Spec[C07Case]{ID: "C07", Gen: genC07, Run: runC07})
+	runSpec(t, Spec[C07Case]{ID: "C07", Gen: genC07, Run: runC07, Pre: preScaleC07})
 }
 
 // checkCachedProofEmbedded is checkCachedProof for a light client that follows the forest f embedded
